@@ -33,6 +33,10 @@ type FrameCase struct {
 	Packets    int `json:"packets"`
 	Size       int `json:"size"`
 	DelayUs    int `json:"delay_us"`
+	// size sweep: when set, packet i has Sizes[i] bytes (filler payload, fill = i); the packets are dealt round-robin
+	// to the goroutines. Every size memberlist may hand to the transport (up to MaxGossipPacketSize) and a few
+	// larger ones must survive the envelope + length prefix + read loop.
+	Sizes []int `json:"sizes,omitempty"`
 }
 
 var (
@@ -138,24 +142,43 @@ func runFrame(t *testing.T, c *FrameCase) (term string, viols []vh.Violation, ta
 	}()
 
 	var payloads [][]byte
-	for g := 0; g < c.Goroutines; g++ {
-		for i := 0; i < c.Packets; i++ {
-			b := mkPayload(c.Size, g*16+i)
-			copy(b, fmt.Sprintf("pkt-%02d-%03d|", g, i))
-			payloads = append(payloads, b)
+	sweep := len(c.Sizes) > 0
+	if sweep {
+		for i, n := range c.Sizes {
+			payloads = append(payloads, mkPayload(n, i))
+		}
+	} else {
+		for g := 0; g < c.Goroutines; g++ {
+			for i := 0; i < c.Packets; i++ {
+				b := mkPayload(c.Size, g*16+i)
+				copy(b, fmt.Sprintf("pkt-%02d-%03d|", g, i))
+				payloads = append(payloads, b)
+			}
 		}
 	}
 	var wg sync.WaitGroup
+	var accMu sync.Mutex
+	accepted := 0
 	startc := make(chan struct{})
 	for g := 0; g < c.Goroutines; g++ {
 		wg.Add(1)
 		go func(g int) {
 			defer wg.Done()
 			<-startc
-			for i := 0; i < c.Packets; i++ {
-				if err := conn.WritePacket("127.0.0.1:9094", payloads[g*c.Packets+i]); err != nil {
+			for i := range payloads {
+				mine := i/c.Packets == g
+				if sweep {
+					mine = i%c.Goroutines == g
+				}
+				if !mine {
+					continue
+				}
+				if err := conn.WritePacket("127.0.0.1:9094", payloads[i]); err != nil {
 					return
 				}
+				accMu.Lock()
+				accepted++
+				accMu.Unlock()
 			}
 		}(g)
 	}
@@ -192,8 +215,22 @@ func runFrame(t *testing.T, c *FrameCase) (term string, viols []vh.Violation, ta
 			seen[string(b)] = true
 		}
 	}
-	total := c.Goroutines * c.Packets
-	if intact != total || len(r.bufs) != total {
+	total := len(payloads)
+	if sweep && (intact != accepted || len(r.bufs) != accepted) {
+		// which size was the first one not to come back?
+		first := -1
+		for i, p := range payloads {
+			if !seen[string(p)] {
+				first = len(p)
+				_ = i
+				break
+			}
+		}
+		viols = append(viols, vh.Violation{Key: "tls-accepted-packet-not-read-back",
+			What: fmt.Sprintf("size sweep %d..%d bytes: WritePacket accepted %d packets, the reader decoded %d (%d intact) and stopped with: %v; smallest packet lost: %d bytes (every later packet on this connection is lost too)",
+				minInt(c.Sizes), maxInt(c.Sizes), accepted, len(r.bufs), intact, r.err, first),
+			Case: Case{Kind: "frame", Frame: c}})
+	} else if !sweep && (intact != total || len(r.bufs) != total) {
 		viols = append(viols, vh.Violation{Key: "tls-frames-interleaved",
 			What: fmt.Sprintf("%d goroutines x %d writePacket calls on one pooled TLS connection: the reader decoded %d packets, %d of them intact, then stopped with: %v (every later gossip packet on this connection is lost)",
 				c.Goroutines, c.Packets, len(r.bufs), intact, r.err),
@@ -208,8 +245,67 @@ func runFrame(t *testing.T, c *FrameCase) (term string, viols []vh.Violation, ta
 	} else {
 		tags["several-writes-per-frame"]++
 	}
+	if sweep {
+		tags["size-sweep"]++
+		tags[fmt.Sprintf("size-sweep-max=%d", maxInt(c.Sizes))]++
+		// long filler payloads are named, not spelled out: payload i = mkpayN size i; a chunk that ends with it is
+		// written as its literal head ++ the payload
+		pt := make([]string, len(payloads))
+		for i, p := range payloads {
+			pt[i] = fmt.Sprintf("(mkpayN %d %d)", len(p), i)
+		}
+		ct := make([]string, len(chunks))
+		for j, ch := range chunks {
+			ct[j] = coqNs(ch)
+			for i, p := range payloads {
+				if len(p) >= 64 && len(ch) >= len(p) && string(ch[len(ch)-len(p):]) == string(p) {
+					ct[j] = "(" + coqNs(ch[:len(ch)-len(p)]) + " ++ " + pt[i] + ")"
+					break
+				}
+			}
+		}
+		term = fmt.Sprintf("KFrame %s %s %s", vh.List(ct), vh.List(pt), vh.Nat(intact))
+		return term, viols, tags
+	}
 	term = fmt.Sprintf("KFrame %s %s %s", vh.ListOf(chunks, coqNs), vh.ListOf(payloads, coqNs), vh.Nat(intact))
 	return term, viols, tags
+}
+
+func minInt(xs []int) int {
+	m := xs[0]
+	for _, x := range xs {
+		if x < m {
+			m = x
+		}
+	}
+	return m
+}
+
+func maxInt(xs []int) int {
+	m := xs[0]
+	for _, x := range xs {
+		if x > m {
+			m = x
+		}
+	}
+	return m
+}
+
+// genFrameSweep: every payload size from 1290 up to MaxGossipPacketSize byte by byte (what memberlist may hand to
+// WriteTo for a gossip packet: UDPBufferSize = MaxGossipPacketSize; the framed envelope is 30-45 bytes longer), a few
+// around the envelope-adjusted limit and a few stream-sized ones, shuffled, from 1-2 goroutines.
+func genFrameSweep(r *vh.Rand, thorough bool) *FrameCase {
+	c := &FrameCase{Goroutines: r.Range(1, 2), DelayUs: 0}
+	for n := 1290; n <= cluster.MaxGossipPacketSize; n++ {
+		c.Sizes = append(c.Sizes, n)
+	}
+	c.Sizes = append(c.Sizes, 1, 64, 700, 701, cluster.MaxGossipPacketSize+1, cluster.MaxGossipPacketSize+60, 2048, 4096, 16384, 20000)
+	if thorough {
+		c.Sizes = append(c.Sizes, 70000, 200000)
+	}
+	vh.Shuffle(r, c.Sizes)
+	c.Packets = len(c.Sizes)
+	return c
 }
 
 func genFrame(r *vh.Rand) *FrameCase {
